@@ -102,7 +102,11 @@ def stringvalue(string):
     return string.replace('\\' + string[0], string[0])[1:-1]
 
 
-_match_forbidden_in_uri = re.compile(r'''.*?[\(\)\s\;,'"]''', re.U).match
+# (anything the unquoted form cannot hold: delimiters, white space, the
+# backslash and control characters)
+_match_forbidden_in_uri = re.compile(
+    r'''.*?[\(\)\s\;,'"\\\x00-\x1f\x7f]''', re.U | re.S
+).match
 
 
 def uri(value):
